@@ -28,6 +28,8 @@ REL = Fraction(1, 10**9)
 # independent references (no FFT)
 # ------------------------------------------------------------------------------------------------
 
+PROP_MODULES = ['C15', 'C15Gen']
+
 def ind_dft(x):
     N = len(x)
     j = np.arange(N, dtype=np.int64)
